@@ -360,7 +360,7 @@ def run(ctx):
         ctx.prove()
     rng = np_seed(ctx, 4)
     cases = []
-    nmesh = ctx.n(2, 6)
+    nmesh = ctx.n(1, 5)
     for kind in M.KINDS:
         elems = EL.all_elements(kind)
         for name, fac in elems:
@@ -372,7 +372,7 @@ def run(ctx):
             for i in range(nmesh):
                 m, info = M.gen_mesh(rng, kind, maxcells=ctx.n(6, 20) if kind in ('hex', 'wedge', 'tet') else ctx.n(10, 30))
                 elem = fac()
-                off = int(rng.integers(0, 4)) if i % 2 else 0
+                off = int(rng.integers(1, 4)) if i % 2 else 0
                 try:
                     inp, out, D = case_of(m, elem, off)
                 except Exception as ex:
@@ -390,7 +390,7 @@ def run(ctx):
                     ctx.count(('oracle', kind, name, m.t.tolist()), nontrivial=shares)
                 if len(ctx.cov['samples']) < 4 and i == 0 and name in ('ElementTriP2', 'ElementTetP2', 'ElementQuad2', 'ElementHex2'):
                     ctx.sample({'mesh': kind, 'element': name, 't': m.t.tolist(), 'element_dofs': D.element_dofs.tolist(), 'N': int(D.N)})
-    nstub = ctx.n(150, 600)
+    nstub = ctx.n(100, 500)
     for i in range(nstub):
         dim = int(rng.integers(1, 4))
         topo, elem = StubTopo(rng, dim), StubElem(rng, dim)
@@ -401,8 +401,37 @@ def run(ctx):
     ctx.log(f'{len(cases)} cases generated (real Dofs + numbering oracle)')
     if gen_ok:
         ctx.corr('dofs', 'Require Import Model.C04_Dofs Gen.C04Gen.\nFrom Coq Require Import List Arith Bool.',
-                 'run', 'natsss_eqb', cases, per_file=ctx.n(24, 80), defs=CORR_DEFS, nontrivial=lambda r: r[5])
+                 'run', 'natsss_eqb', cases, per_file=min(400, -(-len(cases) // 4)), defs=CORR_DEFS, nontrivial=lambda r: r[5])
     _oracle_basis(ctx, rng)
+
+
+def on_slot(refdom, elem):
+    """reference check: the location of every vertex / edge / facet DOF lies on the slot it is attached to
+    (convex hull of the slot's reference vertices; exact up to 1e-12); returns a message or None"""
+    from scipy.optimize import nnls
+    P = np.asarray(refdom.p, dtype=float)
+    X = np.asarray(elem.doflocs, dtype=float)
+    nd, ed, fd, idd = int(elem.nodal_dofs), int(elem.edge_dofs), int(elem.facet_dofs), int(elem.interior_dofs)
+    slots = [([i], nd) for i in range(refdom.nnodes)]
+    slots += [(list(s), ed) for s in (refdom.edges or [])] if int(elem.dim) == 3 and ed > 0 else []
+    slots += [(list(s), fd) for s in refdom.facets] if fd > 0 else []
+    r = 0
+    for verts, cnt in slots:
+        V = P[:, sorted(set(verts))]
+        A = np.vstack((V, np.ones((1, V.shape[1]))))
+        for k in range(cnt):
+            if r >= X.shape[0]:
+                return f'doflocs has {X.shape[0]} rows, fewer than the DOFs attached to vertices/edges/facets'
+            if not np.isfinite(X[r]).all():      # 'no location' markers
+                r += 1
+                continue
+            b = np.concatenate((X[r], [1.0]))
+            _, res = nnls(A, b)
+            if res > 1e-12:
+                return (f'local DOF {r} (slot with reference vertices {verts}, component {k}) is located at {X[r].tolist()}, '
+                        f'not on that slot')
+            r += 1
+    return None
 
 
 def _oracle_basis(ctx, rng):
@@ -413,57 +442,71 @@ def _oracle_basis(ctx, rng):
     maxdev = 0.0
     for kind in M.KINDS:
         elems = EL.all_elements(kind)
-        picks = elems if not ctx.quick() else [elems[int(j)] for j in rng.choice(len(elems), size=min(len(elems), 8), replace=False)]
-        for name, fac in picks:
+        for name, fac in elems:
             elem = fac()
-            if kind == 'tri':
-                p, t, info = M.gen_raw(rng, kind, maxcells=16)
-                m = M.build(kind, p, t, sort_t=True)
-            else:
-                m, info = M.gen_mesh(rng, kind, maxcells=10 if kind in ('hex', 'wedge', 'tet') else 16)
-            try:
-                basis = Basis(m, elem)
-            except Exception as ex:
-                ctx.fail(f'elem={name}:basis-exception', f'Basis({type(m).__name__}, {name}) raises {type(ex).__name__}: {ex}',
-                         {'kind': kind, 'element': name, 'p': m.p.tolist(), 't': m.t.tolist()})
-                continue
-            edofs = np.asarray(basis.element_dofs)
-            ctx.count(('basis', kind, name, m.t.tolist()), nontrivial=True)
-            # ---- doflocs
             base = elem
             while hasattr(base, 'elem'):
                 base = base.elem
-            comp = getattr(elem, 'elems', [base])
-            sym = all(max(int(c.edge_dofs), int(c.facet_dofs)) <= 1 or hasattr(c, 'elem') and
-                      max(int(c.elem.edge_dofs), int(c.elem.facet_dofs)) <= 1 for c in comp)
-            oriented = kind in ('line',) or (kind == 'tri')
-            if hasattr(basis, 'doflocs') and hasattr(elem, 'doflocs') and (sym or oriented):
-                X = basis.mapping.F(np.asarray(elem.doflocs).T)      # (dim, nt, Nbfun)
-                scale = max(1.0, float(np.abs(m.p).max()))
-                dev = 0.0
-                for r in range(edofs.shape[0]):
-                    dev = max(dev, float(np.abs(basis.doflocs[:, edofs[r]] - X[:, :, r]).max()))
-                maxdev = max(maxdev, dev / scale)
-                if dev > 1e-9 * scale:
-                    ctx.fail(f'elem={name}:{kind}:doflocs', f'Basis({type(m).__name__}, {name}): the location table disagrees with the '
-                             f'mapped reference location of a DOF in some cell by {dev:.3g}',
+            if not hasattr(elem, 'elems') and not hasattr(elem, 'elem') and hasattr(elem, 'doflocs'):
+                msg = on_slot(elem.refdom, elem)
+                ctx.count(('on_slot', name), nontrivial=False)
+                if msg:
+                    ctx.fail(f'elem={name}:doflocs', f'{name}.doflocs: {msg}', {'element': name, 'kind': kind,
+                                                                                'doflocs': np.asarray(elem.doflocs).tolist()})
+            for rep in range(ctx.n(1, 3)):
+                if kind == 'tri':
+                    p, t, info = M.gen_raw(rng, kind, maxcells=24)     # large enough to meet every pair of facet slots
+                    m = M.build(kind, p, t, sort_t=True)
+                else:
+                    m, info = M.gen_mesh(rng, kind, maxcells=6 if kind in ('hex', 'wedge', 'tet') else 12)
+                try:
+                    basis = Basis(m, elem)
+                except Exception as ex:
+                    ctx.fail(f'elem={name}:basis-exception', f'Basis({type(m).__name__}, {name}) raises {type(ex).__name__}: {ex}',
                              {'kind': kind, 'element': name, 'p': m.p.tolist(), 't': m.t.tolist()})
-            # ---- matrix shape and locality (single-field elements)
-            if hasattr(elem, 'elems'):
-                continue
-            try:
-                A = BilinearForm(_form).assemble(basis)
-            except Exception:
-                continue        # elements whose fields this generic integrand cannot multiply
-            allowed = set()
-            for e in range(edofs.shape[1]):
-                col = edofs[:, e].tolist()
-                allowed.update((i, j) for i in col for j in col)
-            nz = set(zip(*(x.tolist() for x in A.nonzero())))
-            if A.shape != (basis.N, basis.N) or not nz <= allowed:
-                ctx.fail(f'elem={name}:{kind}:locality', f'assembled matrix of {name} on {type(m).__name__} has shape {A.shape} / '
-                         f'{len(nz - allowed)} nonzeros at (i, j) that share no cell',
-                         {'kind': kind, 'element': name, 'p': m.p.tolist(), 't': m.t.tolist()})
+                    break
+                edofs = np.asarray(basis.element_dofs)
+                ctx.count(('basis', kind, name, m.t.tolist()), nontrivial=True)
+                # ---- doflocs: every cell must map the reference location of a DOF to the location in the table.
+                # Elements with several DOFs per edge/facet are only comparable on consistently oriented meshes
+                # (lines, sort_t triangles); orientation effects belong to C03.
+                comp = getattr(elem, 'elems', [elem])
+                def _b(c):
+                    while hasattr(c, 'elem'):
+                        c = c.elem
+                    return c
+                sym = all(max(int(_b(c).edge_dofs), int(_b(c).facet_dofs)) <= 1 for c in comp)
+                oriented = kind in ('line', 'tri')
+                if hasattr(basis, 'doflocs') and hasattr(elem, 'doflocs') and (sym or oriented):
+                    X = basis.mapping.F(np.asarray(elem.doflocs).T)      # (dim, nt, Nbfun)
+                    scale = max(1.0, float(np.abs(m.p).max()))
+                    dev = 0.0
+                    for r in range(edofs.shape[0]):
+                        if np.isfinite(X[:, :, r]).all():
+                            dev = max(dev, float(np.abs(basis.doflocs[:, edofs[r]] - X[:, :, r]).max()))
+                    if dev > 1e-9 * scale:
+                        ctx.fail(f'elem={name}:doflocs', f'Basis({type(m).__name__}, {name}): basis.doflocs disagrees with the mapped '
+                                 f'reference location of a shared DOF seen from another cell by {dev:.3g}',
+                                 {'kind': kind, 'element': name, 'p': m.p.tolist(), 't': m.t.tolist()})
+                    else:
+                        maxdev = max(maxdev, dev / scale)
+                # ---- matrix shape and locality (single-field elements)
+                if hasattr(elem, 'elems') or rep > 0:
+                    continue
+                try:
+                    A = BilinearForm(_form).assemble(basis)
+                except Exception:
+                    continue        # elements whose fields this generic integrand cannot multiply
+                allowed = set()
+                for e in range(edofs.shape[1]):
+                    col = edofs[:, e].tolist()
+                    allowed.update((i, j) for i in col for j in col)
+                nz = set(zip(*(x.tolist() for x in A.nonzero())))
+                ctx.count(('locality', kind, name, m.t.tolist()), nontrivial=True)
+                if A.shape != (basis.N, basis.N) or not nz <= allowed:
+                    ctx.fail(f'elem={name}:{kind}:locality', f'assembled matrix of {name} on {type(m).__name__} has shape {A.shape} / '
+                             f'{len(nz - allowed)} nonzeros at (i, j) that share no cell',
+                             {'kind': kind, 'element': name, 'p': m.p.tolist(), 't': m.t.tolist()})
     # rectangular: trial P2-like, test P1-like
     import skfem.element as E
     for kind, (eu, ev) in {'tri': (E.ElementTriP2, E.ElementTriP1), 'quad': (E.ElementQuad2, E.ElementQuad1),
@@ -486,13 +529,25 @@ def _oracle_basis(ctx, rng):
 
 def replay(ctx, data):
     from .. import c04_elems as EL
-    from skfem.assembly import Dofs
+    from skfem.assembly import Dofs, Basis
     inp = data['input']
-    if 'p' not in inp:
+    if 'element' not in inp or 'kind' not in inp:
         return run(ctx)
-    m = M.build(inp['kind'], np.array(inp['p'], dtype=float), np.array(inp['t']))
     fac = dict(EL.all_elements(inp['kind']))[inp['element']]
     elem = fac()
+    if data['key'].endswith(':doflocs'):
+        msg = on_slot(elem.refdom, elem) if hasattr(elem, 'doflocs') and not hasattr(elem, 'elem') and not hasattr(elem, 'elems') else None
+        if msg is None and 'p' in inp:
+            m = M.build(inp['kind'], np.array(inp['p'], dtype=float), np.array(inp['t']), **({'sort_t': True} if inp['kind'] == 'tri' else {}))
+            b = Basis(m, elem)
+            X = b.mapping.F(np.asarray(elem.doflocs).T)
+            dev = max(float(np.abs(b.doflocs[:, b.element_dofs[r]] - X[:, :, r]).max()) for r in range(b.element_dofs.shape[0]))
+            msg = f'location table deviates by {dev:.3g}' if dev > 1e-9 * max(1.0, float(np.abs(m.p).max())) else None
+        ctx.log('replay', data['key'], '->', msg or 'consistent on this tree')
+        if msg:
+            ctx.fail(data['key'], msg, inp)
+        return
+    m = M.build(inp['kind'], np.array(inp['p'], dtype=float), np.array(inp['t']))
     bad = oracle_dofs(m, elem, Dofs(m, elem))
     ctx.log('replay', data.get('key'), '->', bad or 'numbering statement holds on this tree (see the full check for doflocs / locality)')
     for msg in bad:
